@@ -147,6 +147,11 @@ def run(E: Engine, rep: Report, tier: str) -> dict:
         kinds.add((kind, l.kind))
         m = mf or mr
         same_ch = m is not None and _schedule_of_slot(m["Q_op"]) == m["Q_cs"]
+        if kind == "rise" and l.kind == "test" and m is not None:
+            # the shorter 2*rise_time look-back is for slots that are not pulses at all: a zero-amplitude pulse that
+            # holds a detuning ("detuned delay") still ramps down with its own fall time and can conflict
+            only_non_pulse = any(is_(x, "not isinstance(Q_op.type, Pulse)", {"Q_op": m["Q_op"]}) is not None for x in sym.conj_of(l.cond))
+            rep.check(only_non_pulse, "FLOW", "_find_add_delay|2*rise_time-look-back-only-for-non-pulses", "the 2*rise_time threshold is applied under `not isinstance(op.type, Pulse)` alone", f"the 2*rise_time look-back is applied under `{sh(l.cond, 160)}`: slots that are pulses (e.g. zero-amplitude pulses holding a detuning) are treated as plain delays, so a conflict with them is never detected", E.where(fad, l.node))
         rep.check(m is not None and same_ch, "FLOW", f"_find_add_delay|op.tf+ramp-down|{kind}|{l.kind}", "the other channel's end is extended by the fall time (pulse) or 2*rise_time (non-pulse), evaluated for that channel and its EOM state",
                   f"`{sh(l.value)}` uses another channel's end without its own ramp-down (fall_time(<that channel>, in_eom_mode=<that channel's state>) for pulses, 2*rise_time otherwise): a pulse could start while the other is still ramping down", E.where(fad, l.node))
     if n_uses < 3 or "test" not in {k for _x, k in kinds} or not ({"assign", "return"} & {k for _x, k in kinds}):
